@@ -23,6 +23,7 @@ def run(model, rep, tier):
     r3_default_mode(ctx, rep)
     r4_low_link_discipline(ctx, rep)
     r5_owns_representation(ctx, rep)
+    r6_visit_dispatch(ctx, rep)
     rep.units['cfg'] = ctx.cfg_stats
 
 
@@ -683,6 +684,182 @@ def r4_low_link_discipline(ctx, rep, R='C20.R4'):
               'an edge to a node that is still on the stack (a back or cross edge inside the current '
               'component) does not lower the parent\'s low-link on every path: cycles closed by such an '
               'edge are not recognised', key='stacked-neighbour', func=fi.qualname, where=where)
+
+
+# ---------------------------------------------------------------------------------------------
+# R6 -- the two kinds of work-list entries (first visit of a node / return to the ancestor top)
+# are told apart by something no graph node can be
+
+def r6_visit_dispatch(ctx, rep, R='C20.R6'):
+    rep.rule(R, 'visit dispatch (typestate of the work list of sccs()): the work list holds nodes '
+             'scheduled for a first visit and, below the neighbours of each open node, ONE entry '
+             'that means "return to the ancestor top".  The branch that pops the ancestor list must '
+             'be selected by a test no scheduled node can satisfy -- identity with a fresh object() '
+             'that is only ever compared and stored into the work list -- and that entry is stored '
+             'on every path after the node is pushed onto the ancestor list and before its '
+             'neighbours are scheduled.  A test comparing the work-list top with a node (the '
+             'ancestor top) is satisfied by a scheduled neighbour equal to it (a self-loop): the '
+             'node is closed before its neighbours were looked at')
+    from .common import reaching_defs
+    fi = ctx.model.func(FN)
+    g = ctx.cfg(fi)
+    roles = _roles(fi)
+    where = ctx.where(fi, fi.node)
+    if roles is None:
+        rep.undecide(R, 'roles', 'cannot identify the state map / ancestor list of sccs()')
+        return
+    S, A, C = roles
+    pops = [n for n in g.nodes if n.kind == 'stmt' and any(
+        isinstance(c, ast.Call) and isinstance(c.func, ast.Attribute) and c.func.attr == 'pop' and
+        is_name(c.func.value, A) for c in ast.walk(n.ast))]
+    if len(pops) != 1:
+        rep.undecide(R, 'return-site', 'found %d sites popping the ancestor list' % len(pops))
+        return
+    pn = pops[0]
+    loops = [p for p in _parents_of(pn.ast, fi.node) if isinstance(p, ast.While)]
+    W = None
+    for lp in loops:
+        t = lp.test
+        if isinstance(t, ast.Name):
+            W = t.id
+            break
+        if isinstance(t, ast.Compare) and isinstance(t.left, ast.Call) and is_name(t.left.func, 'len') \
+                and t.left.args and isinstance(t.left.args[0], ast.Name):
+            W = t.left.args[0].id
+            break
+    if W is None:
+        rep.undecide(R, 'work-list', 'the loop around the return visit is not governed by a work list')
+        return
+
+    def is_top(e, nid, depth=0):
+        """e denotes the top entry of W at node nid (W[-1], W.pop(), or a local defined only so)"""
+        if isinstance(e, ast.Subscript) and is_name(e.value, W) and norm(e.slice) == '-1':
+            return True
+        if isinstance(e, ast.Call) and isinstance(e.func, ast.Attribute) and e.func.attr == 'pop' and \
+                is_name(e.func.value, W) and not e.args:
+            return True
+        if isinstance(e, ast.Name) and depth < 3:
+            ds = reaching_defs(g, nid, e.id)
+            return bool(ds) and all(isinstance(d, ast.expr) and is_top(d, nid, depth + 1) for d in ds)
+        return False
+
+    def is_node_valued(e, nid, depth=0):
+        """e denotes a graph node: the ancestor top, an ancestor / stack element, a state key"""
+        if isinstance(e, ast.Subscript) and isinstance(e.value, ast.Name) and e.value.id != W and \
+                e.value.id != S:
+            return True
+        if isinstance(e, ast.Name) and depth < 3:
+            ds = reaching_defs(g, nid, e.id)
+            return bool(ds) and all(isinstance(d, ast.expr) and
+                                    (is_node_valued(d, nid, depth + 1) or is_top(d, nid, depth + 1))
+                                    for d in ds)
+        return False
+
+    def sentinel(e):
+        if not isinstance(e, ast.Name):
+            return None
+        defs = [n for n in ast.walk(fi.node) if isinstance(n, ast.Name) and n.id == e.id and
+                isinstance(n.ctx, (ast.Store, ast.Del))]
+        asg = [n for n in ast.walk(fi.node) if isinstance(n, ast.Assign) and len(n.targets) == 1 and
+               is_name(n.targets[0], e.id)]
+        if len(defs) != 1 or len(asg) != 1:
+            return None
+        v = asg[0].value
+        if isinstance(v, ast.Call) and is_name(v.func, 'object') and not v.args and not v.keywords:
+            return e.id
+        return None
+
+    def parent_map():
+        pm = {}
+        for n in ast.walk(fi.node):
+            for c in ast.iter_child_nodes(n):
+                pm[c] = n
+        return pm
+
+    verdict = None          # ('ok', M) | ('bad', text) | (None, why)
+    test_node = None
+    for lit, pol in g.dominating_literals(pn.id):
+        # normalised literals: ``is not`` / ``!=`` arrive as ``is`` / ``==`` with flipped polarity
+        if not (isinstance(lit, ast.Compare) and len(lit.ops) == 1 and
+                isinstance(lit.ops[0], (ast.Is, ast.Eq))):
+            continue
+        tn = [t for t in g.nodes if t.kind == 'test' and any(x is lit.left for x in ast.walk(t.ast))]
+        if not tn:
+            continue
+        n = tn[0]
+        l, r = lit.left, lit.comparators[0]
+        for a, b in ((l, r), (r, l)):
+            if not is_top(a, n.id):
+                continue
+            M = sentinel(b)
+            if M and isinstance(lit.ops[0], ast.Is) and pol:
+                verdict, test_node = ('ok', M), n
+            elif M:
+                verdict, test_node = (None, 'the sentinel is compared with == or the return '
+                                      'branch is taken when the entry is NOT the sentinel'), n
+            elif is_node_valued(b, n.id) and pol:
+                verdict, test_node = ('bad', '%s: the work-list top is compared with the node %s; a '
+                                      'neighbour scheduled on top of an open node that equals it '
+                                      '(self-loop edge) is taken for the return visit, the node is '
+                                      'closed and its component handed out before its other '
+                                      'neighbours were visited' % (norm(n.ast), norm(b))), n
+    rep.units.setdefault('sites', {})[R] = {'work_list': W, 'ancestor_list': A,
+                                             'dispatch': norm(test_node.ast) if test_node else None}
+    if verdict is None or verdict[0] is None:
+        rep.assume('C20.R6 not applied: the test that selects the return visit is not of a form this '
+                   'rule reads (%s)' % (verdict[1] if verdict else 'no comparison of the work-list top '
+                                        'dominates %s.pop()' % A))
+        return
+    if verdict[0] == 'bad':
+        rep.bad(R, 'return visit selected by a test no scheduled node can satisfy', verdict[1],
+                key='dispatch-by-node-equality', func=fi.qualname, where=ctx.where(fi, test_node.stmt))
+        return
+    M = verdict[1]
+    rep.ok(R, 'return visit selected by identity with the fresh sentinel %s (%s)' % (M, norm(test_node.ast)))
+    # the sentinel does not leak: every load is an identity comparison or a store into W
+    pm = parent_map()
+    leaks = []
+    msites = []
+    for x in ast.walk(fi.node):
+        if isinstance(x, ast.Name) and x.id == M and isinstance(x.ctx, ast.Load):
+            p = pm.get(x)
+            if isinstance(p, ast.Compare) and all(isinstance(o, (ast.Is, ast.IsNot)) for o in p.ops):
+                continue
+            if isinstance(p, ast.Assign) and p.value is x and all(
+                    isinstance(t, ast.Subscript) and is_name(t.value, W) for t in p.targets):
+                msites.append(p)
+                continue
+            if isinstance(p, ast.Call) and isinstance(p.func, ast.Attribute) and \
+                    is_name(p.func.value, W) and p.func.attr in ('append',) and x in p.args:
+                msites.append(pm.get(p))
+                continue
+            leaks.append(x)
+    rep.check(not leaks, R, 'the sentinel %s is only compared by identity and stored into %s' % (M, W),
+              'the sentinel %s is used in "%s": it can end up where nodes are expected'
+              % (M, norm(pm.get(leaks[0])) if leaks else ''), key='sentinel-leak', func=fi.qualname,
+              where=ctx.where(fi, leaks[0]) if leaks else where)
+    # scheduling: after A.append(x) the sentinel is stored on every path before neighbours are pushed
+    # and before the loop goes round
+    apps = [n for n in g.nodes if n.kind == 'stmt' and any(
+        isinstance(c, ast.Call) and isinstance(c.func, ast.Attribute) and c.func.attr == 'append' and
+        is_name(c.func.value, A) for c in ast.walk(n.ast))]
+    rep.floor(R, len(apps), 1, 'pushes onto the ancestor list')
+    mnodes = {n.id for n in g.nodes if n.kind == 'stmt' and any(n.ast is m for m in msites)}
+    pushes = {n.id for n in g.nodes if n.kind == 'stmt' and n.id not in mnodes and any(
+        isinstance(c, ast.Call) and isinstance(c.func, ast.Attribute) and
+        c.func.attr in ('append', 'extend', 'insert') and is_name(c.func.value, W)
+        for c in ast.walk(n.ast))}
+    heads = [t.id for t in g.nodes if t.kind == 'test' and isinstance(t.stmt, ast.While)]
+    for an in apps:
+        starts = [d for d, k in g.succ[an.id] if k != 'exc']
+        okp, _w = g.every_path_passes(starts, heads + list(pushes) + [g.exit], mnodes,
+                                      include_start=True, edge_ok=lambda s, d, k: k != 'exc')
+        rep.check(bool(mnodes) and okp, R,
+                  'after %s the return entry is scheduled before any neighbour' % norm(an.ast),
+                  'after %s a path reaches the next round of the walk (or schedules neighbours) '
+                  'without storing the return entry %s below them: the node is never closed, or is '
+                  'closed before its neighbours were visited' % (norm(an.ast), M),
+                  key='schedule-return', func=fi.qualname, where=ctx.where(fi, an.ast))
 
 
 def _parents_of(node, stop):
